@@ -300,7 +300,7 @@ pub fn exec(pool: &mut Pool, ev: &mut Value) {
                         // bytes are either moved into the result or freed by the conversion.
                         let l0 = live_bytes();
                         let (srcobj, src_total) = if keep {
-                            let c = pool.objs[&src].clone_obj();
+                            let c = guard(|| pool.objs[&src].clone_obj()).unwrap_or(None);
                             let t = live_bytes() - l0;
                             (c, Some(t))
                         } else {
@@ -444,12 +444,19 @@ pub fn exec(pool: &mut Pool, ev: &mut Value) {
                 None => ev["ops"].as_str().unwrap_or("").to_string(),
             };
             let pos = ev["a"].as_array().and_then(|a| a.first()).map(arg).unwrap_or(0);
+            // creating the iterator is a library call too: a panic there is the outcome of the first step
             let out = if m == "into_iter" {
                 let keep = ev["keep"].as_i64().unwrap_or(1) == 1;
-                let obj = if keep { pool.objs.get(&o).and_then(|x| x.clone_obj()) } else { pool.objs.remove(&o) };
-                obj.and_then(|x| x.into_iter_run(&ops))
+                let obj = if keep { guard(|| pool.objs.get(&o).and_then(|x| x.clone_obj())).unwrap_or(None) } else { pool.objs.remove(&o) };
+                match obj {
+                    Some(x) => guard(move || x.into_iter_run(&ops)).unwrap_or(Some(vec![json!([PANIC])])),
+                    None => None,
+                }
             } else {
-                pool.objs.get(&o).and_then(|x| x.iter_run(&m, pos, &ops))
+                match pool.objs.get(&o) {
+                    Some(x) => guard(|| x.iter_run(&m, pos, &ops)).unwrap_or(Some(vec![json!([PANIC])])),
+                    None => None,
+                }
             };
             match out {
                 Some(v) => set(ev, "out", json!(v)),
